@@ -430,7 +430,7 @@ META = {
         "specs/C16/arguments.c T stubs handle_* / check_* / from_string_mask_type / topo_set_cpubind_mask_main_thread / "
         "update_logging_settings / vec_append_all / cfg_add / cfg_get_int / get_entry_as_int / get_entry_as_size_t / ini_put_*: "
         "callees count their calls, record their arguments and return arbitrary values (each resolution function and check may "
-        "throw); manage_config::add only creates entries for keys that are not present yet; `ini_config.emplace_back(\"key[!]=\" "
+        "throw); manage_config::add (contract proved by cfgmap.add) may (re)define any key; `ini_config.emplace_back(\"key[!]=\" "
         "+ value)` is recorded per key (rule IniEmplace captures key and value expression)",
         "specs/C16/bind.c strvec_* / str_new / str_append: std::vector<std::string> of arbitrary length with one symbolic victim "
         "element; operator+= on the string under construction records the piece appended",
@@ -484,3 +484,47 @@ UNITS.append(Unit("rtcfg.reconfigure", "reconf.c", enforce="reconfigure",
                   ])},
                   funcs=[RC + ": runtime_configuration::reconfigure"], min_obligations=5,
                   doc="the stack sizes cached for the running runtime are re-read from the configuration after the command-line / --pika:ini definitions were merged"))
+
+
+# ---- prepend_options (added by main after seeded change C16-3 was missed): environment options go IN FRONT of the command line ----
+VEC = r"std::vector<std::string>"
+UNITS.append(Unit("cmdline.prepend_options", "prepend.c", enforce="prepend_options", lifts={"body": Lift(CLH,
+    r"std::vector<std::string> prepend_options\(std::vector<std::string>&& args, std::string&& options\)", rules=[
+        Sub(r"\busing \w+ = boost::tokenizer<[^;]*;", "", None),
+        Sub(r"\bboost::escaped_list_separator<char> \w+\([^;]*\);", "", None),
+        Sub(r"\b(?:tokenizer|boost::tokenizer<[^;]*?>>?) (\w+)\((\w+)(?:, \w+)?\);", r"struct strvec \1 = tok_make(&\2);", None),
+        Sub(r"\b(\w+)\.empty\(\)", r"str_empty(&\1)", None),
+        Sub(VEC + r" (\w+)\((\w+)\.begin\(\), \2\.end\(\)\);", r"struct strvec \1 = strvec_from_range(&\2);", None),
+        Sub(VEC + r" (\w+)\(std::move\((\w+)\)\);", r"struct strvec \1 = strvec_move(&\2);", None),
+        Sub(VEC + r" (\w+)(?:\((\w+)\)| = (\w+));", lambda m: "struct strvec %s = strvec_from_range(&%s);" % (m.group(1), m.group(2) or m.group(3)), None),
+        Sub(VEC + r" (\w+);", r"struct strvec \1 = strvec_empty();", None),
+        Sub(r"std::(?:move|copy)\((\w+)\.begin\(\), \1\.end\(\), std::back_inserter\((\w+)\)\);", r"strvec_append(&\2, &\1);", None),
+        Sub(r"\b(\w+)\.insert\(\1\.end\(\), (?:std::make_move_iterator\()?(\w+)\.begin\(\)\)?, (?:std::make_move_iterator\()?\2\.end\(\)\)?\);", r"strvec_append(&\1, &\2);", None),
+        Sub(r"\b(\w+)\.insert\(\1\.begin\(\), (?:std::make_move_iterator\()?(\w+)\.begin\(\)\)?, (?:std::make_move_iterator\()?\2\.end\(\)\)?\);", r"strvec_prepend(&\1, &\2);", None),
+        Sub(r"\b\w+\.reserve\([^;]*\);", "vx_nop();", None),
+        Sub(r"\breturn std::move\((\w+)\);", r"return strvec_move(&\1);", None),
+    ])}, funcs=[CLH + ": pika::detail::prepend_options"], min_obligations=5,
+    doc="result == tokens(options) ++ args: what comes from pika.commandline.prepend_options / PIKA_COMMANDLINE_OPTIONS precedes the real "
+        "command line, so the command line wins for position-resolved and composing options"))
+
+
+# ---- manage_config::add (added by main): later definitions of a key win, so the command line beats the prepended environment ----
+MCCPP = "libs/pika/util/src/manage_config.cpp"
+LOOP_MCADD = ("__CPROVER_assigns(vx_it, self->has_k, self->val_k, g_seen_k, g_last_k_val, g_cur)\n"
+              "__CPROVER_loop_invariant(vx_it <= cfg->size && (g_seen_k ==> (self->has_k && self->val_k == g_last_k_val)) && "
+              "(!g_seen_k ==> (self->has_k == vx_has0 && self->val_k == vx_val0)))")
+UNITS.append(Unit("cfgmap.add", "mcadd.c", enforce="manage_config_add", lifts={"body": Lift(MCCPP,
+    r"void manage_config::add\(std::vector<std::string> const& cfg\)", rules=[
+        Sub(r"^\{", "{ bool vx_has0 = self->has_k; int vx_val0 = self->val_k;", 1),
+        Sub(r"for \(std::string const& (\w+) : (\w+)\)\s*\{",
+            r"for (size_t vx_it = 0; vx_it != \2->size; ++vx_it) { struct entry const *\1 = cfg_at(\2, vx_it);", 1),
+        Sub(r"std::string::size_type (\w+) = (\w+)\.find_first_of\('='\);", r"size_t \1 = str_find_eq(\2);", None),
+        Sub(r"std::string (\w+)\(trim_whitespace\((\w+)\.substr\(0, (\w+)\)\)\);", r"struct sstr \1 = trim_key(str_key_part(\2, \3));", None),
+        Sub(r"std::string (\w+)\(trim_whitespace\((\w+)\.substr\((\w+) \+ 1\)\)\);", r"int \1 = trim_val(str_value_part(\2, \3 + 1));", None),
+        Sub(r"(\w+)\[\1\.size\(\) - 1\] == '!'", r"sstr_last_is_bang(&\1)", None),
+        Sub(r"(\w+)\.erase\(\1\.size\(\) - 1\);", r"sstr_drop_last(&\1);", None),
+        Sub(r"\bconfig_\.insert\(map_type::value_type\((\w+), (\w+)\)\);", r"map_insert(self, \1, \2);", None),
+        Sub(r"\bconfig_\.insert_or_assign\((\w+), (\w+)\);", r"map_assign(self, \1, \2);", None),
+        Sub(r"\bconfig_\[(\w+)\] = (\w+);", r"map_assign(self, \1, \2);", None),
+    ], loops={1: LOOP_MCADD, "count": 1})}, funcs=[MCCPP + ": pika::detail::manage_config::add"], min_obligations=5,
+    doc="I: after add(cfg) every key defined in cfg holds its LAST definition (argument order: environment first, command line later)"))
